@@ -112,6 +112,23 @@ func firstDiff(want, got map[string]bool) (string, bool, bool) {
 	return "", false, false
 }
 
+// listedTop: the top-level keys the redaction algorithm lists (Redaction.tla: TopKeep); used only to tell the open
+// case-variant finding from other keys that appear from nowhere.  Probes carry no algorithm number: any listed key.
+func listedTop(algo int, k string) bool {
+	switch k {
+	case "origin", "membership", "prev_state":
+		return algo != 5
+	case "type", "content":
+		return true
+	}
+	for _, x := range oldTopKeys {
+		if x == k {
+			return true
+		}
+	}
+	return false
+}
+
 func arrow(modelKeeps bool) string {
 	if modelKeeps {
 		return "kept->dropped"
@@ -168,11 +185,12 @@ func compareWithModel(r *rec, api string, orig, red map[string]interface{}) *hx.
 	// nothing may be invented
 	for _, k := range obs.Top {
 		if _, ok := orig[k]; !ok {
-			// the open finding is exactly: the original spells this key with other letter case; anything else that
-			// appears from nowhere is keyed differently (and is not covered by the finding)
+			// the open finding is exactly: the original spells this key - a key the algorithm of the version lists -
+			// with other letter case; anything else that appears from nowhere is keyed differently (and is not covered
+			// by the finding)
 			how := "invented"
 			for ok := range orig {
-				if ok != k && strings.EqualFold(ok, k) {
+				if ok != k && strings.EqualFold(ok, k) && listedTop(r.Algo, k) {
 					how = "case-variant-promoted"
 				}
 			}
